@@ -152,6 +152,7 @@ func famC12(r *Run) {
 	}
 	famC12extra(r)
 	famConcFlatten(r)
+	famConcAfterError(r)
 }
 
 // ---- C19 ----
@@ -342,6 +343,9 @@ func famC19(r *Run) {
 	// integers beyond 2^53 and empty lines inside the input: same answer on both channels, equal to the library's
 	{
 		inputs, exprs := cliBigAndBlank()
+		di, de := cliDuplicateKeys()
+		inputs = append(inputs, di...)
+		exprs = append(exprs, de...)
 		for _, input := range inputs {
 			for _, expr := range exprs {
 				for _, viaFile := range []bool{false, true} {
